@@ -228,6 +228,8 @@ class TermInterp:
             return
         if isinstance(st, ast.AugAssign):
             cur = self.expr(st.target)
+            if isinstance(st.target, ast.Name) and any(cur is x for x in getattr(self, "escaped", [])):
+                self.err("in-place update of an array that was already stored in a list", st)
             v = self.expr(st.value)
             new = self.binop(st.op, cur, v, st)
             if self.guard_stack and isinstance(v, Terms):
@@ -305,7 +307,7 @@ class TermInterp:
         if isinstance(t, ast.Subscript):
             base = self.expr(t.value)
             if isinstance(base, Table):
-                idx = self.index(t.slice)
+                idx = self.index(t.slice, base)
                 if len(idx) != len(base.shape):
                     # chained subscript table[j][i]
                     self.err("partial index store", st)
@@ -319,14 +321,35 @@ class TermInterp:
                 return
         self.err("assignment target", st)
 
-    def index(self, sl):
+    def index(self, sl, table=None):
+        """index tuple over the table's index axes (in the order I0, I1, ...); a full slice may stand on the point axis"""
         elts = sl.elts if isinstance(sl, ast.Tuple) else [sl]
+        if table is not None and any(isinstance(e, ast.Slice) for e in elts):
+            axes = list(table.axes)
+            if len(elts) > len(axes):
+                self.err("too many indices", sl)
+            cell = {}
+            for pos, e in enumerate(elts):
+                ax = axes[pos]
+                if isinstance(e, ast.Slice):
+                    if not (e.lower is None and e.upper is None and e.step is None) or ax != "Pts":
+                        self.err(f"slice on axis {ax} of the table", e)
+                    continue
+                v = self.expr(e)
+                if not isinstance(v, int) or not ax.startswith("I"):
+                    self.err(f"non-constant table index `{ast.unparse(e)}`", e)
+                cell[int(ax[1:])] = v
+            if sorted(cell) != list(range(len(cell))):
+                self.err("index axes skipped in a table subscript", sl)
+            return tuple(cell[k] for k in sorted(cell))
         out = []
         for e in elts:
             v = self.expr(e)
             if not isinstance(v, int):
                 self.err(f"non-constant table index `{ast.unparse(e)}`", e)
             out.append(v)
+        if table is not None and table.axes and table.axes[0] == "Pts" and out:
+            self.err("integer index on the point axis of the table", sl)
         return tuple(out)
 
     # ------------------------------------------------------------ expressions
@@ -346,6 +369,8 @@ class TermInterp:
             return tuple(self.expr(x) for x in e.elts)
         if isinstance(e, ast.List):
             return [self.expr(x) for x in e.elts]
+        if isinstance(e, ast.IfExp):
+            return self.ifexp(e)
         if isinstance(e, ast.UnaryOp):
             v = self.expr(e.operand)
             if isinstance(e.op, ast.USub):
@@ -377,7 +402,7 @@ class TermInterp:
             if isinstance(base, ShapeOf):
                 return PointCount()
             if isinstance(base, Table):
-                idx = self.index(e.slice)
+                idx = self.index(e.slice, base)
                 if len(idx) == len(base.shape):
                     return base.get(idx)
                 if len(idx) < len(base.shape):
@@ -406,6 +431,12 @@ class TermInterp:
         if isinstance(e, ast.Call):
             return self.call(e)
         self.err(f"expression {type(e).__name__}", e)
+
+    def ifexp(self, e):
+        t = self.expr(e.test)
+        if isinstance(t, bool) or t in (sp.true, sp.false):
+            return self.expr(e.body if bool(t) else e.orelse)
+        self.err(f"conditional expression on a non-constant condition `{ast.unparse(e.test)}`", e)
 
     def binop(self, op, l, r, node):
         isvec = lambda v: isinstance(v, tuple) and all(isinstance(x, int) for x in v)
@@ -479,7 +510,7 @@ class TermInterp:
             return out.marked(note) if isinstance(out, Terms) else out.map(lambda v: v.marked(note) if isinstance(v, Terms) else v)
         if d in ("np.identity", "numpy.identity", "np.eye") and args == [3] and kw.get("dtype", "int") == "int":
             return [tuple(x) for x in E3]
-        if d in ("np.array", "numpy.array") and len(args) == 1:
+        if d in ("np.array", "numpy.array") and len(args) == 1 and not (isinstance(args[0], (list, tuple)) and args[0] and all(isinstance(x, Terms) for x in args[0])):
             v = args[0]
             if isinstance(v, (list, tuple)) and all(isinstance(x, int) for x in v):
                 return tuple(v)
@@ -488,15 +519,46 @@ class TermInterp:
                     return tuple(conv(y) for y in z) if isinstance(z, (list, tuple)) and z and isinstance(z[0], (list, tuple)) else tuple(z)
                 return list(conv(v)) if True else None
             self.err("np.array of non-literal", e)
+        if d in ("np.zeros", "numpy.zeros") and args and kw.get("dtype", args[1] if len(args) > 1 else None) == "int":
+            shp = args[0] if isinstance(args[0], (tuple, list)) else (args[0],)
+            if all(isinstance(s_, int) and not isinstance(s_, bool) for s_ in shp) and len(shp) in (1, 2):
+                row = lambda n: tuple(0 for _ in range(n))
+                return row(shp[0]) if len(shp) == 1 else [row(shp[1]) for _ in range(shp[0])]
+            self.err("integer np.zeros with a non-constant shape", e)
+        if isinstance(e.func, ast.Attribute) and e.func.attr in ("append",) and len(args) == 1 and isinstance(e.func.value, ast.Name) \
+                and isinstance(self.env.get(e.func.value.id), list):
+            self.env[e.func.value.id].append(args[0])
+            self.escaped = getattr(self, "escaped", [])
+            self.escaped.append(args[0])  # numpy arrays are shared with the list: a later in-place update would change the element too
+            return None
+        if d in ("np.stack", "numpy.stack", "np.array", "numpy.array", "np.asarray") and args and isinstance(args[0], (list, tuple)) and args[0] \
+                and all(isinstance(x, Terms) for x in args[0]):
+            axis = kw.get("axis", args[1] if len(args) > 1 else 0)
+            if d.split(".")[-1] != "stack" and (len(args) > 1 or set(kw) - {"dtype"}):
+                self.err("np.array of point functions with extra arguments", e)
+            if axis not in (0, 1, -1, -2):
+                self.err("np.stack axis", e)
+            n = len(args[0])
+            axes = ["I0", "Pts"] if axis in (0, -2) else ["Pts", "I0"]
+            return Table((n,), axes, {(i,): x for i, x in enumerate(args[0])})
         if d in ("np.zeros", "numpy.zeros") and args:
             shp = args[0] if isinstance(args[0], tuple) else (args[0],)
             lead = [s for s in shp if isinstance(s, int)]
             rest = [s for s in shp if not isinstance(s, int)]
-            if len(rest) > 1 or (rest and shp[-1] is not rest[0]):
+            if len(rest) > 1:
                 self.err("np.zeros with an unexpected shape", e)
             if not rest:
                 self.err("np.zeros without a point axis", e)
-            return Table(tuple(lead)) if lead else Terms(symmetric=self.symmetric)
+            if not lead:
+                return Terms(symmetric=self.symmetric)
+            axes, k = [], 0
+            for s_ in shp:
+                if isinstance(s_, int):
+                    axes.append(f"I{k}")
+                    k += 1
+                else:
+                    axes.append("Pts")
+            return Table(tuple(lead), axes)
         if d == "enumerate" and len(args) in (1, 2):
             start = args[1] if len(args) == 2 else kw.get("start", 0)
             if not isinstance(start, int) or set(kw) - {"start"}:
